@@ -15,7 +15,7 @@ import DdoModel.ParSolver
       restricted compilation — lock-free, any outcome `DDRes S` allowed by `okR` (`compileR`) —,
       `maybe_update_best` (`updateR`), then, unless the restricted diagram was exact, `best_lb()`
       again (`readLbX`), the relaxed compilation (`compileX`), `maybe_update_best` (`updateX`) and,
-      unless the relaxed diagram was exact, `enqueue_cutset(node.ub)` (`enqueue`);
+      unless the relaxed diagram was exact, `enqueue_cutset()` (`enqueue`);
     * a cut-off compilation leads to `abort_search(reason, node.ub)` (`abort`; `AbortTop` = what the
       `fringe.pop()` inside it hands out) and the worker leaves after its `notify_node_finished`
       (the formula of `abort_search` is a parameter `ab` of `StepG` so that the system can also be built
@@ -42,7 +42,7 @@ inductive WSt (S : Type)
   | readX (n : SubP S)                             -- next: `best_lb()` (second read)
   | compX (n : SubP S) (lb : Int)                  -- next: relaxed compilation
   | updX (n : SubP S) (lb : Int) (o : DDOut S)     -- next: `maybe_update_best`
-  | enq (n : SubP S) (lb : Int) (o : DDOut S)      -- next: `enqueue_cutset(n.ub)`
+  | enq (n : SubP S) (lb : Int) (o : DDOut S)      -- next: `enqueue_cutset()`
   | abortS (n : SubP S)                            -- a compilation was cut off; next: `abort_search`
   | fin (n : SubP S) (thenExit : Bool)             -- next: `notify_node_finished`
 
@@ -148,7 +148,7 @@ inductive StepG (ab : ParCrit S → Int → Option Int → ParCrit S) (dedup : B
         { crit := s.crit.updateBest o, ws := s.ws.set i (if o.isExact then .fin n false else .enq n lb o) }
   | enqueue (s : Sys S) (i : Nat) (n : SubP S) (lb : Int) (o : DDOut S) (hw : s.ws[i]? = some (.enq n lb o)) :
       StepG ab dedup okR okX s
-        { crit := s.crit.enqueue dedup n.ub o.cutset, ws := s.ws.set i (.fin n false) }
+        { crit := s.crit.enqueue dedup o.cutset, ws := s.ws.set i (.fin n false) }
   /- ### cutoff -/
   | abort (s : Sys S) (i : Nat) (n : SubP S) (top : Option Int) (hw : s.ws[i]? = some (.abortS n))
       (htop : AbortTop s.crit.base.fringe top) :
